@@ -153,8 +153,74 @@ pub fn system_static(s: &str) -> &'static str {
     SYSTEM_NAMES.iter().copied().find(|n| *n == s).unwrap_or("animate")
 }
 
-/// All linear extensions of the declared partial order over the systems present.
+/// All linear extensions of the partial order the plugin declares over the systems present.
+///
+/// The candidates are the permutations that keep `chain` and `select` before `animate` (what
+/// `register_animation_key` documents; its loss is reported by `declared_order_violation`). Which
+/// of them are linear extensions of what the plugin *actually* declares is asked of bevy itself,
+/// once per process: a candidate whose pinning makes bevy's schedule builder report a dependency
+/// cycle contradicts a constraint the plugin declares (say, a registration that additionally puts
+/// the chain system before the selection system) and is not a schedule bevy could ever pick, so it
+/// is not simulated. On a registration that declares nothing beyond the documented constraints
+/// every candidate survives and the list is what it always was.
 pub fn legal_sequences(selector: bool, second: bool) -> Vec<Vec<&'static str>> {
+    use std::sync::OnceLock;
+    static CACHE: [OnceLock<Vec<Vec<&'static str>>>; 4] =
+        [OnceLock::new(), OnceLock::new(), OnceLock::new(), OnceLock::new()];
+    CACHE[(selector as usize) * 2 + second as usize]
+        .get_or_init(|| {
+            let candidates = candidate_sequences(selector, second);
+            let buildable: Vec<Vec<&'static str>> = candidates
+                .iter()
+                .filter(|seq| sequence_is_buildable(selector, second, seq))
+                .cloned()
+                .collect();
+            // nothing buildable: the plugin cannot run at all (it panics on its first frame for a
+            // reason of its own); keep the candidates so that the runs report that panic
+            if buildable.is_empty() {
+                candidates
+            } else {
+                buildable
+            }
+        })
+        .clone()
+}
+
+/// True unless pinning `seq` makes bevy refuse the `Update` schedule (dependency cycle).
+fn sequence_is_buildable(selector: bool, second: bool, seq: &[&'static str]) -> bool {
+    let run = || {
+        let mut app = App::new();
+        let base = Instant::now();
+        let mut time = Time::new(base);
+        time.update_with_instant(base);
+        app.insert_resource(time);
+        app.add_plugins(AnimationPlugin::<Target>::new());
+        if second {
+            app.add_plugins(AnimationPlugin::<Other>::new());
+        }
+        if selector {
+            app.register_animation_key::<Target, Key>();
+        }
+        let seq: Vec<bevy_mina::VerifSystem> = seq
+            .iter()
+            .map(|n| match *n {
+                "chain" => bevy_mina::VerifSystem::Chain,
+                "select" => bevy_mina::VerifSystem::Select,
+                "animate_other" => bevy_mina::VerifSystem::AnimateOther,
+                _ => bevy_mina::VerifSystem::Animate,
+            })
+            .collect();
+        bevy_mina::verif_pin_system_order::<Target, Key, Other>(&mut app, &seq);
+        single_threaded(&mut app);
+        app.update();
+    };
+    match simkit::panic::catch(run) {
+        Ok(()) => true,
+        Err(p) => !(p.message.contains("cycle") || p.message.contains("initializing schedule")),
+    }
+}
+
+fn candidate_sequences(selector: bool, second: bool) -> Vec<Vec<&'static str>> {
     let mut present: Vec<&'static str> = vec!["animate"];
     if selector {
         present.push("chain");
